@@ -74,17 +74,43 @@ theorem shStep_dq (a : List Str) (b : Str) (g : Got) (c : Char) (h : c ≠ '"') 
     repeat' split
     all_goals first | rfl | simp_all
 
-theorem shLoop_dq (rest : Str) : ∀ (t : Str) (a : List Str) (b : Str) (g : Got), t.all (fun c => c ≠ '"' && c ≠ '\\') = true →
-    shLoop { args := a, buf := b, got := g, dq := true } (t ++ '"' :: rest) = shLoop (shN a (b ++ t) .quoted) rest
-  | [], a, b, g, _ => by
+theorem dqWf_cons {c : Char} {r : Str} (hc : c ≠ '\\') : dqWf (c :: r) = (decide (c ≠ '\\') && decide (c ≠ '"') && dqWf r) := by
+  rw [dqWf]
+  intro c' r' h
+  exact fun _ => hc h
+
+theorem dqValue_cons {c : Char} {r : Str} (hc : c ≠ '\\') : dqValue (c :: r) = c :: dqValue r := by
+  rw [dqValue]
+  intro c' r' h
+  exact fun _ => hc h
+
+/-- the text between double quotes: escapes and plain characters, then the closing quote -/
+theorem shLoop_dq (rest : Str) : ∀ (n : Nat) (t : Str), t.length ≤ n → ∀ (a : List Str) (b : Str) (g : Got), dqWf t = true →
+    shLoop { args := a, buf := b, got := g, dq := true } (t ++ '"' :: rest) = shLoop (shN a (b ++ dqValue t) .quoted) rest
+  | _, [], _, a, b, g, _ => by
     have : shIsSpace '"' = false := by decide
-    simp [shLoop, shStep, this]
-  | c :: t, a, b, g, h => by
-    simp only [List.all_cons, Bool.and_eq_true, decide_eq_true_eq] at h
-    obtain ⟨g', hs⟩ := shStep_dq a b g c h.1.1 h.1.2
-    have ih := shLoop_dq rest t a (b ++ [c]) g' (by simpa using h.2)
-    simp only [List.cons_append, shLoop, hs]
-    simpa using ih
+    simp [shLoop, shStep, this, dqValue]
+  | 0, _ :: _, hl, _, _, _, _ => by simp at hl
+  | n + 1, c :: r, hl, a, b, g, h => by
+    by_cases hc : c = '\\'
+    · subst hc
+      cases r with
+      | nil => simp [dqWf] at h
+      | cons d r' =>
+        have h' : dqWf r' = true := by simpa [dqWf] using h
+        have ih := shLoop_dq rest n r' (by simp at hl; omega) a (b ++ [d]) .single h'
+        have s1 : shStep { args := a, buf := b, got := g, dq := true } '\\' = .cont { args := a, buf := b, got := g, dq := true, esc := true } := by
+          simp [shStep]
+        have s2 : shStep { args := a, buf := b, got := g, dq := true, esc := true } d = .cont { args := a, buf := b ++ [d], got := .single, dq := true } := by
+          simp [shStep]
+        simp only [List.cons_append, shLoop, s1, s2, ih, dqValue]
+        simp
+    · rw [dqWf_cons hc] at h
+      simp only [Bool.and_eq_true, decide_eq_true_eq] at h
+      obtain ⟨g', hs⟩ := shStep_dq a b g c h.1.2 hc
+      have ih := shLoop_dq rest n r (by simp at hl; omega) a (b ++ [c]) g' h.2
+      simp only [List.cons_append, shLoop, hs, ih, dqValue_cons hc]
+      simp
 
 /-- one well-formed segment outside quotes: its value is appended to the buffer and an argument is under way -/
 theorem shLoop_seg (rest : Str) (sg : ShSeg) (h : sg.wf = true) (a : List Str) (b : Str) (g : Got) :
@@ -107,7 +133,7 @@ theorem shLoop_seg (rest : Str) (sg : ShSeg) (h : sg.wf = true) (a : List Str) (
       have : shIsSpace '"' = false := by decide
       simp [shStep, this]
     simp only [ShSeg.render, ShSeg.value, List.cons_append, List.append_assoc, shLoop, h0]
-    exact shLoop_dq rest t a b g h
+    exact shLoop_dq rest t.length t (Nat.le_refl _) a b g h
 
 theorem shLoop_segs (rest : Str) : ∀ (segs : List ShSeg), segs.all ShSeg.wf = true → ∀ (a : List Str) (b : Str) (g : Got),
     (segs ≠ [] ∨ g ≠ Got.no) →
